@@ -62,11 +62,23 @@ Measure: /\d+(\.\d+)?mm/;
 Pair: /\d+:\d+/;
 Item: 'item' name=ID v=INT;
 """,
+    # grammar text full of comments (line, block, adjacent, after a line comment's newline: the shapes for which
+    # Arpeggio's memoization is known to interact with comment skipping), parsed by the cached textX-grammar parser
+    "GH": """// leading line comment
+/* block */ Model: 'H' /*x*/ items+=Item //
+/**/ ;
+Item: 'item' name=ID //c
+/**/ /* two */ ('=' v=INT)? ';' ; // end
+/* tail *//**/
+""",
     # invalid grammars: creation fails (after the metamodel object was initialised)
     "BAD1": "Model: 'a' x=INT",
     "BAD2": "Model: 'a' x=Nope; A: ID | INT;",
     "BAD3": "Model: a=ID (b=[Model|FQN|^x.y ; B: INT;",
     "BAD4": "Model: items+=Item; Item: 'i' name=ID; Item: 'j' name=ID;",
+    "BAD5": "Model: 'a' //\n/**/ x= ; /* c */",
+    "BAD6": "// c\nModel: 'a' x=INT; /* open",
+    "BAD7": "Model: b=/x/ //\n/**/ | //\n/* */ ;\nA: //x\n;",
 }
 
 serial = [0]
@@ -200,6 +212,19 @@ def obj_processors(names):
     for n in names:
         if n == "INT:inc":
             procs["INT"] = lambda x: int(x) + 1
+        elif n == "INT:no13":
+            # a base-type processor rejecting a value: raises while the object graph is being built
+            def no13(x):
+                if int(x) == 13:
+                    raise TextXSemanticError("13 is not allowed")
+                return int(x)
+            procs["INT"] = no13
+        elif n == "ID:nope":
+            def nope(x):
+                if x == "nope":
+                    raise ValueError("nope is not a name")
+                return x
+            procs["ID"] = nope
         elif n == "STRING:up":
             procs["STRING"] = lambda x: x[1:-1].upper()
         elif n == "Measure:decimal":
@@ -262,6 +287,63 @@ def model_processors(names):
                     raise TextXSemanticError("model processor says no")
             out.append(mraise)
     return out
+
+
+# ------------------------------------------------------------------ nested loads (started from inside a load)
+NEST = {}        # the nested load requested for the current operation: phase, slot, input, via, file; filled: done, res
+SLOTS = {}
+TMP = [None]
+
+
+def load_model(mm, op, tmp):
+    if op["via"] == "file":
+        return mm.model_from_file(os.path.join(tmp, op["file"]))
+    if op["via"] == "strfn":
+        return mm.model_from_str(op["input"], file_name=os.path.join(tmp, op["file"]))
+    return mm.model_from_str(op["input"])
+
+
+def model_res(m):
+    return {"ok": "model", "dump": dump_val(m, set()), "prim": type(m) in (int, float, str, bool), "imm": not hasattr(m, "_tx_parser")}
+
+
+def do_nested(phase):
+    """called by the hooks of a configuration with "nest": a complete top-level load in the middle of the current one"""
+    if not NEST or NEST.get("done") or NEST["phase"] != phase:
+        return
+    NEST["done"] = True
+    mm = SLOTS.get(NEST["slot"])
+    if mm is None:
+        NEST["res"] = {"ok": "noslot"}
+        return
+    ev = list(EV)
+    try:
+        NEST["res"] = model_res(load_model(mm, NEST, TMP[0]))
+    except Exception as e:  # noqa   the outer load goes on
+        NEST["res"] = {"err": dump_err(e, TMP[0])}
+    NEST["ev"] = "".join(EV[len(ev):])
+    del EV[len(ev):]          # the outer load's events are classified without the inner ones
+
+
+def nest_hooks(mm, procs):
+    def provider(obj, attr, obj_ref):
+        do_nested("provider")
+        root = obj
+        while getattr(root, "parent", None) is not None:
+            root = root.parent
+        for it in getattr(root, "items", []) or []:
+            if it.name == obj_ref.obj_name:
+                return it
+        return None
+
+    def ref_proc(o):
+        do_nested("objproc")
+
+    def model_proc(model, metamodel):
+        do_nested("modelproc")
+    mm.register_scope_providers({"Ref.target": provider})
+    procs["Ref"] = ref_proc
+    mm.register_model_processor(model_proc)
 
 
 # ------------------------------------------------------------------ canonical dumps
@@ -442,8 +524,11 @@ def build_mm(cfg, tmp):
     else:
         mm = metamodel_from_str(GRAMMARS[g], **kw)
     record_parser_events(mm)
-    if cfg.get("objp"):
-        mm.register_obj_processors(obj_processors(cfg["objp"]))
+    procs = obj_processors(cfg.get("objp", []))
+    if cfg.get("nest"):
+        nest_hooks(mm, procs)
+    if procs:
+        mm.register_obj_processors(procs)
     for p in model_processors(cfg.get("modelp", [])):
         mm.register_model_processor(p)
     if cfg.get("provider") == "plain":
@@ -457,12 +542,17 @@ def run_job(job, tmp):
     for name, text in job.get("files", {}).items():
         with open(os.path.join(tmp, name), "w") as f:
             f.write(text)
-    slots = {}
+    slots = SLOTS
+    slots.clear()
+    TMP[0] = tmp
     used = set()
     out = []
     for op in job["ops"]:
         del EV[:]
         del OPENED[:]
+        NEST.clear()
+        if op.get("nest"):
+            NEST.update(op["nest"])
         try:
             if op["op"] == "new":
                 cfg = job["cfgs"][op["cfg"]]
@@ -475,21 +565,15 @@ def run_job(job, tmp):
                 if mm is None:
                     res = {"ok": "noslot"}
                 else:
-                    dbg = {}
-                    if op["via"] == "file":
-                        m = mm.model_from_file(os.path.join(tmp, op["file"]), **dbg)
-                    elif op["via"] == "strfn":
-                        m = mm.model_from_str(op["input"], file_name=os.path.join(tmp, op["file"]))
-                    else:
-                        m = mm.model_from_str(op["input"])
-                    res = {"ok": "model", "dump": dump_val(m, set()), "prim": type(m) in (int, float, str, bool),
-                           "imm": not hasattr(m, "_tx_parser")}
+                    res = model_res(load_model(mm, op, tmp))
             else:
                 res = {"ok": "?"}
         except BaseException as e:  # noqa
             if isinstance(e, (KeyboardInterrupt, SystemExit)):
                 raise
             res = {"err": dump_err(e, tmp)}
+        if op.get("nest"):
+            res["inner"] = NEST.get("res")
         out.append({"res": res, "st": state_digest(slots, used), "ev": "".join(EV),
                     "opened": sorted(set(f for f in OPENED if not f.startswith("grammar_")))})
     return out
